@@ -144,8 +144,8 @@ PROPS = {
         "trusted": ["pep440_rs parses the literal; only its release segments reach the model"], "assumptions": [],
     },
     "C01": {
-        "lean_targets": ["Pep508.Theorems.C01b", "Pep508.Theorems.C01", "Pep508.Theorems.C10"],
-        "theorems": ["Pep508.C01.layout_parses", "Pep508.C01.layout_parses_cursor", "Pep508.C01.layout_then_junk", "Pep508.C01.layout_parses_sub", "Pep508.C01.more_fuel_same", "Pep508.C01.layout_independent", "Pep508.C01.paren_transparent", "Pep508.C01.atom_key_op_string", "Pep508.C01.atom_string_op_key", "Pep508.C01.kwStop_iff", "Pep508.C01.quote_then_keyword", "Pep508.C01.keyword_glued_right", "Pep508.C01.keyword_glued_left", "Pep508.C01.expr_version", "Pep508.C01.expr_version_in", "Pep508.C01.expr_string", "Pep508.C01.expr_in", "Pep508.C01.expr_not_in",
+        "lean_targets": ["Pep508.Theorems.C17b", "Pep508.Theorems.C01b", "Pep508.Theorems.C01", "Pep508.Theorems.C10"],
+        "theorems": ["Pep508.C17.atom_shape", "Pep508.C17.atom_key_in_string", "Pep508.C17.atom_key_notin_string", "Pep508.C17.atom_string_in_key", "Pep508.C17.atom_string_notin_key", "Pep508.C01.layout_parses", "Pep508.C01.layout_parses_cursor", "Pep508.C01.layout_then_junk", "Pep508.C01.layout_parses_sub", "Pep508.C01.more_fuel_same", "Pep508.C01.layout_independent", "Pep508.C01.paren_transparent", "Pep508.C01.atom_key_op_string", "Pep508.C01.atom_string_op_key", "Pep508.C01.kwStop_iff", "Pep508.C01.quote_then_keyword", "Pep508.C01.keyword_glued_right", "Pep508.C01.keyword_glued_left", "Pep508.C01.expr_version", "Pep508.C01.expr_version_in", "Pep508.C01.expr_string", "Pep508.C01.expr_in", "Pep508.C01.expr_not_in",
                      "Pep508.C01.expr_contains", "Pep508.C01.expr_not_contains", "Pep508.C01.expr_extra", "Pep508.C01.expr_wf", "Pep508.C01.skeleton",
                      "Pep508.C01.parse_total", "Pep508.C01.inverted_string", "Pep508.C10.python_version_sem"],
         "suites": [{"name": "pyver", "args": ["C01"]}, {"name": "mparse", "args": ["C01"]}],
@@ -176,8 +176,8 @@ PROPS = {
         "assumptions": ["unbounded parenthesis nesting exhausts the Rust stack; not claimed (the model's fuel is proved sufficient, the stack is not modelled)"],
     },
     "C17": {
-        "lean_targets": ["Pep508.Theorems.C17"],
-        "theorems": ["Pep508.C17.reported_and_dropped", "Pep508.C17.never_silently", "Pep508.C17.version_kept_quiet", "Pep508.C17.chain_skips_dropped",
+        "lean_targets": ["Pep508.Theorems.C17b", "Pep508.Theorems.C17"],
+        "theorems": ["Pep508.C17.drop_is_removal", "Pep508.C17.warnings_in_order", "Pep508.C17.every_warning_reported", "Pep508.C17.dropped_reports", "Pep508.C17.pruned_atoms", "Pep508.C17.nothing_remains_iff", "Pep508.C17.parse_is_pruned", "Pep508.C17.uninterpretable_anywhere", "Pep508.C17.parse_same_tree", "Pep508.C17.parse_all_dropped", "Pep508.C17.pruned_wf_iff", "Pep508.C17.pruned_wf_can_fail", "Pep508.C17.atom_shape", "Pep508.C17.atom_string_op_string", "Pep508.C17.atom_key_op_key", "Pep508.C17.shape_dropped", "Pep508.C17.word_operator_needs_alpha", "Pep508.C17.example_paren_or", "Pep508.C17.reported_and_dropped", "Pep508.C17.never_silently", "Pep508.C17.version_kept_quiet", "Pep508.C17.chain_skips_dropped",
                      "Pep508.C17.chain_first_kept", "Pep508.dispatch_strKey_quoted", "Pep508.dispatch_quoted_strKey", "Pep508.dispatch_extra_valid", "Pep508.dispatch_extra_invalid"],
         "suites": [{"name": "mparse", "args": ["C17"]}],
         "rule": "the complete table {version key, string key, extra, quoted literal} x 11 operators x the same four kinds, several literals per kind (valid/invalid versions, "
@@ -358,7 +358,7 @@ MANIFEST_TEXT = {
                      "derivation x layout oracle with an independent AST evaluator for the text level",
         "text": "Each comparison form means what the PEPs say for all literals and environments; and/or skeletons are boolean (skeleton); the parser is total and inverts operands "
                 "correctly. Every whitespace layout of a marker text (and/or chains of any length, parentheses of any depth) parses to the combination of what its atoms parse to alone (layout_parses, layout_independent; keyword boundaries kwStop_iff with proved negative examples); atoms `key op 'v'` and `'v' op key` are proved to parse as dispatch says.",
-        "note": _NOTE + "partial: atoms with the word operators `in` / `not in` are hypotheses (AtomOK) of the layout theorem, not proved instances (the character classes of the external tokenizer are abstract); pep440 literal parsing is external.",
+        "note": _NOTE + "every atom shape (key / quoted string on either side; symbolic operator, `in`, `not in`) is proved to satisfy the layout theorem's atom hypothesis (atom_shape; the word operators need the tokenizer class to hold on the letters i / n, proved necessary); pep440 literal parsing is external.",
     },
     "C06": {
         "technique": "Lean 4 theorem: the marker parsers never reach a panic site for any Unicode input and any behaviour of the external parsers (cursor invariant, fuel bound), "
@@ -369,9 +369,9 @@ MANIFEST_TEXT = {
         "note": _NOTE + "Display's slicing is modelled (errDisplaySlices) and proved total for every span that starts on a char boundary, and compared with the printed underline on every error of the suites (unicode_width is an external function passed per case); stack exhaustion on unbounded nesting and the unnamed parser are outside the model; K3 (u64 overflow in debug builds) is a known finding.",
     },
     "C17": {
-        "technique": "Lean 4 theorems on the typed dispatch (for every behaviour of the external parsers) and the chain builder + exhaustive table correspondence",
-        "text": "reported_and_dropped / never_silently / kept-comparisons-are-quiet / invalid extra names reported and kept / chains skip dropped operands; the full "
-                "kind x operator x kind table is run through the real parser and compared.",
+        "technique": "Lean 4 theorems: typed dispatch (for every behaviour of the external parsers); uninterpretable_anywhere / parse_is_pruned — for every well-formed marker text (any and/or/parenthesis structure, any layout) containing uninterpretable comparisons at any positions, parsing succeeds, every such comparison's warning reaches the reporter in order, and the result is the tree of the text with exactly those comparisons removed (TRUE if nothing remains) + exhaustive table and insertion correspondence",
+        "text": "reported_and_dropped / never_silently / kept-comparisons-are-quiet; drop_is_removal, warnings_in_order, parse_is_pruned, parse_same_tree (the pruned text parses to the same tree), nothing_remains_iff; atom_shape covers every operand / operator shape incl. two literals, two keys, in / not in; pruned_wf_can_fail: removing a comparison textually can glue a key to a keyword (the one case where the pruned TEXT is not a marker); the full "
+                "kind x operator x kind table and generated insertions at arbitrary positions are run through the real parser and compared.",
         "note": _NOTE + "reporter independence: the reporter is write-only in the model; evaluation-time collectors are compared by the C01 suite.",
     },
     "C07": {
